@@ -66,9 +66,11 @@ fn warm_up() {
         let _ = std::fs::remove_file(&path);
         biodivine_hctl_model_checker::model_checking::model_check_extended_formula_dirty("3{x} in %w%: @{x}: (AX %w%)", &env.graph, &loaded).map(|_| ())
     });
+    // The warm-up only exists to run the lazily initialised statics of the dependencies in every
+    // process alike. If the tree under test misbehaves here, that is for the checks to report, not
+    // a reason to refuse to run.
     if !matches!(r, exec::Outcome::Ok(())) {
-        eprintln!("harness error: warm-up failed: {}", r.describe());
-        std::process::exit(2);
+        eprintln!("note: warm-up did not complete: {}", r.describe());
     }
 }
 
@@ -82,7 +84,14 @@ fn run_case(case: &Case, hash_seed: u64, sandbox: &str) -> Result<scen::Report, 
     });
     match out {
         exec::Outcome::Ok(r) => Ok(r),
-        o => Err(format!("harness error inside check: {}", o.describe())),
+        // a panic that escaped the per-evaluation isolation (library code called directly by the
+        // check, e.g. while building the world): the run is not judged
+        o => {
+            let mut r = scen::Report::default();
+            r.skipped = Some(format!("check did not complete: {}", o.describe()));
+            r.probe("runs_not_completed_panic_outside_isolation", 1);
+            Ok(r)
+        }
     }
 }
 
